@@ -512,9 +512,12 @@ l1:
 		}
 
 		// try found status from exploring
+		// use a copy: the explorer's own object is shared by all replicas and all cycles, while
+		// this one goes into shard plans and the merged view, which are written to
 		status := c.getExploreResult(h)
 		if status != nil {
-			ret[h] = status
+			cp := *status
+			ret[h] = &cp
 		} else {
 			ret[h] = target.NewScrapeStatus(0, 0)
 		}
